@@ -52,7 +52,11 @@ WordOf(bs) == IF bs = <<>> THEN 0 ELSE Head(bs) + 2 * WordOf(Tail(bs))
 
 BitSeqs(n) == [1..n -> {0, 1}]
 
-AddBitOut(bs, b) == IF Len(bs) = 10 THEN CheckWord(WordOf(Append(bs, b))) ELSE None
+(* C06 is relational: the 11th bit returns what whole-word decoding of those 11 bits returns. *)
+(* AddBitOutWith is parameterised by the whole-word decoder so that conformance can check   *)
+(* the bit-serial path against the implementation's own add_word (C05 pins that one).       *)
+AddBitOutWith(Check(_), bs, b) == IF Len(bs) = 10 THEN Check(WordOf(Append(bs, b))) ELSE None
+AddBitOut(bs, b) == AddBitOutWith(CheckWord, bs, b)
 AddBitNext(bs, b) == IF Len(bs) = 10 THEN <<>> ELSE Append(bs, b)
 
 VARIABLES bits, fout
